@@ -139,6 +139,7 @@ def vclass(v):
 
 
 KNOWN = []
+CUR_TIER = "quick"
 
 
 def load_known():
@@ -294,7 +295,7 @@ def explore(b, prop, world, tier, seed, budget_s, chunk, extra_job=None):
 # replay, minimisation
 
 def make_replay(b, prop, r, v, streams=None, override=None, stop_at=None):
-    return dict(version=1, property=prop, world=r["world"], violation=v, seed=r["seed"], run_index=r["run"],
+    return dict(version=1, property=prop, world=r["world"], tier=r.get("tier") or CUR_TIER, violation=v, seed=r["seed"], run_index=r["run"],
                 override=override if override is not None else {}, stop_at_ms=stop_at or 0,
                 streams=streams if streams is not None else r.get("streams") or {}, config=r.get("config"),
                 schedule_summary=r.get("schedule_summary"), event_tail=r.get("event_tail"), log_digest=r.get("log_digest"),
@@ -305,7 +306,7 @@ def run_replay(b, rf, dump=False):
     p = os.path.join(b.dir, "rf%d.json" % (b.njob + 1))
     with open(p, "w") as f:
         json.dump(rf, f)
-    res, err = b.run_job(replay=p, property=rf["property"], world=rf["world"], tier="replay", seed=rf["seed"], dump_log=dump, keep_all=True, timeout=90)
+    res, err = b.run_job(replay=p, property=rf["property"], world=rf["world"], tier=rf.get("tier") or "quick", seed=rf["seed"], dump_log=dump, keep_all=True, timeout=90)
     os.unlink(p)
     if not res:
         return None, err
@@ -328,7 +329,7 @@ def run_many(b, rfs):
         p = os.path.join(b.dir, "rf%d.json" % (b.njob + 1))
         with open(p, "w") as f:
             json.dump(rf, f)
-        jp, out = b.job(replay=p, property=rf["property"], world=rf["world"], tier="replay", seed=rf["seed"], keep_all=True)
+        jp, out = b.job(replay=p, property=rf["property"], world=rf["world"], tier=rf.get("tier") or "quick", seed=rf["seed"], keep_all=True)
         procs.append((b.spawn(jp), jp, out, p))
     outs = []
     for (pr, jp, out, p) in procs:
@@ -482,7 +483,9 @@ def cmd_check(a):
     if prop not in PROPS:
         infra("no check registered for %s" % prop)
     cfg = PROPS[prop]
+    global CUR_TIER
     tier = a.tier or os.environ.get("VERIF_TIER") or "quick"
+    CUR_TIER = tier
     seed = int(os.environ.get("VERIF_SEED", "1"))
     budget = float(os.environ.get("VERIF_BUDGET_S", cfg[tier]))
     t0 = time.time()
